@@ -76,6 +76,9 @@ def run(R):
     R.rule("C01-R14", "ORDER BY comparators (top level and subquery) agree and are lexicographic over ALL keys: each walks every sort key in "
                       "order, compares numerically when both values parse as numbers and lexically otherwise, reverses exactly under "
                       "DESC, returns at the first key that is not Equal and Equal only after the last key")
+    R.rule("C01-R15", "the solution sequence is cut only by the finalizers: between the executor's result and finalize_select / "
+                      "finalize_subquery no code truncates, drains, pops or de-duplicates the rows (LIMIT and DISTINCT act after "
+                      "aggregation and ordering - an aggregate without GROUP BY still ranges over all solutions)")
     R.rule("C01-R7", "plan memo completeness (shared with C02-R1): two different sub-plans of one query never share a memo entry")
     r1(R)
     r2(R)
@@ -91,6 +94,7 @@ def run(R):
     r12(R)
     r13(R)
     r14(R)
+    r15(R)
 
 
 def r1(R):
@@ -1083,3 +1087,85 @@ def r14(R):
         R.ob("C01-R14", "first-difference:" + b.name, "the comparator returns a key's comparison only when it is not Equal", okret and nret >= 1, where=cl.where())
         R.ob("C01-R14", "equal-after-all:" + b.name, "rows compare Equal only after every key was compared", okeq and neq >= 1, where=cl.where())
     R.ob("C01-R14", "siblings", "both comparators have the same shape (%s)" % shapes, len(shapes) == 2 and len(set(shapes.values())) == 1)
+
+
+def r15(R):
+    prog = R.prog
+    CUTS = {"truncate", "drain", "split_off", "pop", "remove", "swap_remove", "resize", "dedup", "dedup_by", "dedup_by_key", "clear", "take", "skip",
+            "step_by", "split_at", "chunks", "first", "last", "nth", "take_while", "skip_while"}
+    es = R.body("C01-R15", "execute_query::execute_select", crate="kolibrie")
+    fs = R.body("C01-R15", "execute_query::finalize_select", crate="kolibrie")
+    if es is None or fs is None:
+        return
+    # everything execute_select runs between the executor and the finalizer, in execute_query.rs
+    scope = set()
+    work = [es.key]
+    while work:
+        k = work.pop()
+        if k in scope:
+            continue
+        scope.add(k)
+        b = prog.bodies.get(k)
+        if b is None:
+            continue
+        for x in prog.family(k):
+            for c in x.calls():
+                if c.key in prog.bodies and prog.bodies[c.key].file.endswith("execute_query.rs") and c.key != fs.key and \
+                        prog.bodies[c.key].name not in ("build_dataset_view", "build_logical_plan_from_group", "materialize_neural_relations_for_patterns",
+                                                        "collect_triple_patterns", "aggregate_rows", "apply_order_by"):
+                    work.append(c.key)
+    ROWS = ("alloc::vec::Vec<std::collections::hash::map::HashMap<alloc::string::String, u32", "alloc::vec::Vec<std::collections::hash::map::HashMap<alloc::string::String, alloc::string::String")
+    n = 0
+    for k in sorted(scope):
+        b = prog.bodies.get(k)
+        if b is None:
+            continue
+        for x in prog.family(k):
+            R.saw(x)
+            for c in x.calls():
+                if c.name() in CUTS and c.args:
+                    pl = F.op_place(c.args[0])
+                    ty = x.local_ty(pl["l"]).replace("&mut ", "").replace("&", "") if pl is not None else ""
+                    if ty.startswith(ROWS) or "Bindings" in ty:
+                        n += 1
+                        # an early cut is sound only when nothing later reorders, merges or removes rows: the guard must consult every
+                        # modifier, including the projection (an aggregate without GROUP BY is an implicit group)
+                        fields = set()
+                        for cd in G.conditions(x, c.bb):
+                            blk = x.blocks[cd["bb"]] if cd.get("bb") is not None else None
+                            if blk is None or blk["term"]["t"] != "switch":
+                                continue
+                            dl = F.op_place(blk["term"]["discr"])
+                            if dl is None:
+                                continue
+                            locs = {dl["l"]}
+                            # a flag computed by a short-circuit chain: the earlier operands control where it is assigned
+                            for d in x.defs().get(x.alias_root(dl["l"]) if x.alias_root(dl["l"]) is not None else dl["l"], []):
+                                if d[0] in ("assign", "call"):
+                                    for cd2 in G.conditions(x, d[1]):
+                                        b2 = x.blocks[cd2["bb"]] if cd2.get("bb") is not None else None
+                                        if b2 is not None and b2["term"]["t"] == "switch" and F.op_place(b2["term"]["discr"]) is not None:
+                                            locs.add(F.op_place(b2["term"]["discr"])["l"])
+                            for l0 in locs:
+                                for t in P.derives(prog, x, l0):
+                                    if t[0] == "field":
+                                        fields.add(t[1].split(".")[-1])
+                        need = {"order_conditions", "distinct", "group_vars", "variables"}
+                        if need <= fields:
+                            R.ob("C01-R15", "guarded-cut:%s:%s" % (x.short, c.name()), "the early cut in %s is guarded by every modifier of the query (%s)"
+                                 % (x.short, sorted(fields)), True, where=x.where(c.ln))
+                            continue
+                        R.ob("C01-R15", "cut:%s:%s" % (x.short, c.name()), "%s does not cut the solution sequence before it is finalized (`%s` on the rows)" % (x.short, c.name()),
+                             False, where=x.where(c.ln), detail="rows removed before aggregation / ordering / DISTINCT change the answer: e.g. `SELECT (AVG(?v) AS ?a) ... LIMIT 1` "
+                             "must average over all solutions and then keep one row (the guard consults only %s; it must also rule out %s)"
+                             % (sorted(fields), sorted(need - fields)))
+    R.ob("C01-R15", "scope", "bodies between the executor and the finalizer scanned for cuts (%d bodies, %d cuts)" % (len(scope), n), len(scope) >= 2)
+    # the rows finalize_select receives are the decoded executor result
+    calls = [c for c in es.calls() if c.key == fs.key]
+    okc = False
+    for c in calls:
+        terms = []
+        P.coverage_terminals(prog, es, c.args[0], set(), terms)
+        if terms and all(t[0] == "call" and len(t) > 3 and t[3].startswith("kolibrie::") for t in terms):
+            okc = True
+    R.ob("C01-R15", "whole-result", "finalize_select receives the complete (decoded) result of the executor", okc, where=es.where(calls[0].ln if calls else None))
